@@ -30,7 +30,7 @@ def run(tier, seed, replay=None):
         if nvec != pr.distinct:
             raise vlib.Inconclusive("vector file has %d lines but TLC found %d distinct states" % (nvec, pr.distinct))
         res = dplib.run_vdp(pid, wd, ["c10", "-tier", tier, "-seed", str(seed), "-vectors", vectors, "-trace", trace,
-                                      "-trace-limit", "14000" if quick else "80000"], timeout=3000)
+                                      "-trace-limit", "18000" if quick else "90000"], timeout=3000)
         tv = dplib.validate_trace(pid, wd, [trace], allow_empty=bool(res["violations"]))
         return pr, nvec, res, tv
 
@@ -39,7 +39,7 @@ def run(tier, seed, replay=None):
 
     def wits():
         return dplib.witnesses([("DataPlaneMC", "DataPlane_wit.cfg", ["W_NoLoopExpiry", "W_NoExpiredNotice", "W_NoNoticeDropped", "W_NoPong"]),
-                                ("DataPlanePing", "DataPlanePing_quick.cfg", ["W_NoFarPair"])], wd)
+                                ("DataPlanePing", "DataPlanePing_quick.cfg", ["W_NoFarPair", "W_NoPairAtTheLimit", "W_NoPairBeyondTheLimit"])], wd)
 
     (pr, nvec, res, tv), rs, wit = dplib.parallel(impl, design, wits)
     dplib.apply(v, res, tv)
@@ -47,7 +47,7 @@ def run(tier, seed, replay=None):
     if not v.violations:
         if c.get("traceroutes", 0) != nvec:
             raise vlib.Inconclusive("harness ran %s of %d (src,dst) vectors" % (c.get("traceroutes"), nvec))
-        for k in ("adversarial_cases", "pings", "sends"):
+        for k in ("adversarial_cases", "pings", "sends", "traceroutes_at_the_hop_limit", "traceroutes_beyond_the_hop_limit"):
             if not c.get(k):
                 raise vlib.Inconclusive("never exercised: %s" % k)
         for k in ("expire", "forward", "bounce", "inject", "publish", "socket"):
@@ -58,7 +58,7 @@ def run(tier, seed, replay=None):
         "states": sum(r.distinct for _, _, r in rs), "transitions": sum(r.generated for _, _, r in rs),
         "traces_validated_against_impl": tv["segments"] if tv else 0,
         "evaluations": res["evaluations"], "distinct_nontrivial": res["distinct"],
-        "rule": "TLC enumerates every (topology, src, dst) vector of DataPlanePing.tla (chains/trees of real nodes) with budgets h in 0..d+1 and 255; each yields "
+        "rule": "TLC enumerates every (topology, maxForwardingHops, src, dst) vector of DataPlanePing.tla (chains/trees of real nodes whose maxForwardingHops is 6 or small enough that pairs exactly at, and one link beyond, the limit exist) with budgets h in 0..d+1 and 255 (0..k beyond the limit); each yields "
                 "one Ping, one plain send per budget and one Traceroute, compared with the spec's operators; adversarial cases = (2- or 3-node loop through scripted "
                 "neighbours, origin real node or neighbour, budget, data or notice packet); distinct = distinct (kind, topology, src, dst, budget) tuples",
         "samples": (res.get("samples") or [])[:3] + ([tv["sample"]] if tv else []), "exhaustive": False,
@@ -66,7 +66,7 @@ def run(tier, seed, replay=None):
         "tlc": dplib.tlc_summary(rs),
     }
     return v.finish("model_checking", cov, assumptions=[
-        "loop-free part: trees, where the least-cost table is unique; every node's maxForwardingHops is 6 there (10 in the adversarial part)",
+        "loop-free part: trees, where the least-cost table is unique; every node of a mesh has the same maxForwardingHops k (6, or 1..5 so that d = k and d = k+1 occur; 10 in the adversarial part); for d = k+1 only budgets <= k are pinged (a larger budget reaches the node but its reply cannot return: 10 s time-outs)",
         "the scripted neighbours are deliberately non-conforming (they hand packets back without decrementing); their steps are environment actions of the trace spec",
         "a Ping that times out is a violation only when no hook event was recorded during the last 4 s of the wait, otherwise the run is inconclusive",
     ])
